@@ -373,6 +373,60 @@ Section AddEvents.
       pose proof (Rsum_nonneg u Hu0). lra.
     - split; [split; exact I2 | exact I3].
   Qed.
+  (* positivity of the node values (so that np.log is applied to positive numbers) *)
+  Lemma ae_nodes_pos orig u edges :
+    length edges = S (length orig) -> length u = length orig -> pos_widths edges ->
+    List.Forall (fun x => 0 < x) orig -> List.Forall (fun x => 0 <= x) u -> orig <> [] ->
+    List.Forall (fun x => 0 < x) (ae_nodes N orig u edges).
+  Proof.
+    intros Hl Hu Hw Ho Hu0 Hne. rewrite ae_nodes_R.
+    set (h := map (fun x : R * R => fst x + snd x) (combine orig u)).
+    assert (Hh : List.Forall (fun x => 0 < x) h).
+    { apply Forall_forall. intros x Hx. unfold h in Hx. apply in_map_iff in Hx.
+      destruct Hx as ([a b] & <- & Hin). cbn [fst snd].
+      rewrite Forall_forall in Ho, Hu0.
+      pose proof (Ho a (in_combine_l _ _ _ _ Hin)). pose proof (Hu0 b (in_combine_r _ _ _ _ Hin)). lra. }
+    assert (Hs : 0 < Rsum h).
+    { assert (h <> []).
+      { unfold h. destruct orig as [|a o]; [contradiction|]. destruct u as [|b u']; [discriminate|]. discriminate. }
+      clear - Hh H. induction Hh as [|x l Hx Hl IH]; [contradiction|].
+      rewrite Rsum_cons. destruct l as [|y l']; [cbn; lra|].
+      assert (y :: l' <> []) by discriminate. specialize (IH H0). lra. }
+    apply Forall_forall. intros x Hx. apply in_map_iff in Hx.
+    destruct Hx as ([a [lo up]] & <- & Hin). cbn [fst snd].
+    rewrite Forall_forall in Hh. pose proof (Hh a (in_combine_l _ _ _ _ Hin)) as Ha.
+    unfold pos_widths in Hw. rewrite Forall_forall in Hw.
+    pose proof (Hw (lo, up) (in_combine_r _ _ _ _ Hin)) as Hlu. cbn [fst snd] in Hlu.
+    apply Rdiv_lt_0_compat; [apply Rdiv_lt_0_compat; assumption | lra].
+  Qed.
+
+  Theorem srun_pos h edges st0 ops :
+    sinit N h edges = Ok st0 ->
+    length edges = S (length h) -> pos_widths edges ->
+    List.Forall (fun x => 0 < x) h -> h <> [] ->
+    List.Forall (op_ok (length h)) ops ->
+    List.Forall (fun x => 0 < x) (s_nodes (srun N edges st0 ops)).
+  Proof.
+    intros Hinit Hl Hw Hh Hne Hops.
+    assert (Hs : Rsum h <> 0).
+    { clear - Hh Hne. assert (0 < Rsum h); [|lra].
+      induction Hh as [|x l Hx Hl IH]; [contradiction|].
+      rewrite Rsum_cons. destruct l as [|y l']; [cbn; lra|].
+      assert (y :: l' <> []) by discriminate. specialize (IH H). lra. }
+    unfold sinit in Hinit. destruct (sh_hist N h edges) as [n|] eqn:E; [|discriminate].
+    cbn [bind] in Hinit. injection Hinit as <-.
+    destruct (sh_hist_norm e h edges n E Hl Hw Hs) as [Hn _].
+    set (st0 := {| s_orig := h; s_nodes := n; s_orig_nodes := n |}).
+    assert (I0 : List.Forall (fun x => 0 < x) (s_nodes st0) /\
+                 List.Forall (fun x => 0 < x) (s_orig_nodes st0) /\ s_orig st0 = h)
+      by (repeat split; exact Hn).
+    clearbody st0. revert st0 I0.
+    induction Hops as [|o ops Ho _ IH]; intros st (I1 & I2 & I3); [exact I1|].
+    cbn [srun fold_left]. apply IH. destruct o as [u|]; cbn [sstep s_nodes s_orig s_orig_nodes].
+    - destruct Ho as [Hu Hu0]. repeat split; [|exact I2|exact I3].
+      rewrite I3. apply ae_nodes_pos; assumption.
+    - repeat split; assumption.
+  Qed.
 End AddEvents.
 
 (* ================================================================== the log-spline as an oracle *)
